@@ -39,6 +39,7 @@ ASSUMPTIONS = ["inspect.getclosurevars / __globals__ / inspect source lookup are
 def run(ctx):
     capture.run_cases(ctx, ctx.n(250, 6000), ID)
     capture.run_same_callable_twice(ctx, ctx.n(6, 60))
+    capture.container_capture_oracle(ctx)
 
 
 def replay(ctx, case):
